@@ -27,10 +27,13 @@ def fp(x):
 
 
 def load_known(pid):
-  if not os.path.exists(KNOWN):
-    return []
-  data = json.load(open(KNOWN))
-  return [e for e in data.get("findings", [])
+  import glob
+  ents = []
+  files = [KNOWN] + sorted(glob.glob(os.path.join(VERIF, "findings.d", "*.json")))
+  for f in files:
+    if os.path.exists(f):
+      ents.extend(json.load(open(f)).get("findings", []))
+  return [e for e in ents
           if e.get("property") == pid and e.get("status") == "open"]
 
 
